@@ -116,7 +116,7 @@ PROPS["C01"] = {
         "sequence is non-empty; distinct = distinct (type, sequence content) by hash.",
         TRUST,
         "quick: TINY(3,6)+TINY(4,4) x 6 maps x 6 element types x 4 aliases, BOUNDARY lengths <= 8193; thorough: TINY(4,7), "
-        "TINY(5,6), BOUNDARY up to 2^20+1, both build profiles. Lengths near 2^43 are out of reach (memory). Every long input and a quarter of the tiny ones are swept again on copies of the structure - a deserialized one and clone_from() into values that held something else (Default, a longer input with a larger maximum, a shorter one with a smaller maximum); counter derived_states_swept; position / occurrence alphabets include the wrap-around arguments 2^63, 2^63+n-1, 2^62+n-1, 2^56+n-1, 2^55+n-1."),
+        "TINY(5,6), BOUNDARY up to 2^20+1, both build profiles. Lengths near 2^43 are out of reach (memory). Every long input and a quarter of the tiny ones are swept again on copies of the structure - a deserialized one and clone_from() into values that held something else (Default, a longer input with a larger maximum, a shorter one with a smaller maximum); counter derived_states_swept; when the input is empty the Default::default() value is swept against the empty reference too; position / occurrence alphabets include the wrap-around arguments 2^63, 2^63+n-1, 2^62+n-1, 2^56+n-1, 2^55+n-1."),
     "vacuity": need(["cases_with_3+_levels", "cases_with_2+_superblocks", "empty_cases", "cases_with_one_distinct_symbol"]),
 }
 
@@ -131,7 +131,7 @@ PROPS["C02"] = {
         "length, deduplicated by the serialized tree); each constructed HuffQWaveletTree gets the full query sweep against a "
         "Vec-based reference (absent symbols must give None). Non-trivial = non-empty sequence; distinct by content hash.",
         TRUST + ["the hook src/verif_hooks.rs only reorders tied items (any such order is one the hash maps can produce)"],
-        "quick: TINY(4,5), HUFF(A<=10, W={1,2,3,5,9,20}) (full cross for A<=5), CHAIN(2..8), all tie orders for profiles with "
+        "quick: TINY(4,5), HUFF(A<=10, W={1,2,3,5,9,20}) (full cross for A<=5), CHAIN(2..12) for all aliases and CHAIN(14), CHAIN(16) (32-bit codewords, n = 1.09 million) for one, all tie orders for profiles with "
         "<= 6 symbols (cap 5040 constructions per profile, bounded family above it - reported in vacuity_counters); thorough: "
         "A<=13 with weight 100, CHAIN up to 17 (34-bit codes: known finding), ties for <= 7 symbols."),
     "vacuity": need(["tie_scripts_explored", "distinct_tie_outcomes_swept", "cases_with_levels_of_different_length",
@@ -149,7 +149,7 @@ PROPS["C03"] = {
         "Vec-based reference. Non-trivial = non-empty sequence; distinct by content hash.",
         TRUST + ["the hook src/verif_hooks.rs only reorders tied items"],
         "quick: TINY(3,6)+TINY(4,4) for WT, TINY(4,5) for HWT, HUFF(A<=10), CHAIN(2..20), ties for <= 6 symbols; "
-        "thorough: larger TINY, A<=13, CHAIN up to 33 (33-bit codes: known finding), BOUNDARY up to 2^20+1. Every long input and a quarter of the tiny ones are swept again on copies of the structure - a deserialized one and clone_from() into values that held something else (Default, a longer input with a larger maximum, a shorter one with a smaller maximum); counter derived_states_swept; position / occurrence alphabets include the wrap-around arguments 2^63, 2^63+n-1, 2^62+n-1, 2^56+n-1, 2^55+n-1."),
+        "thorough: larger TINY, A<=13, CHAIN up to 33 (33-bit codes: known finding), BOUNDARY up to 2^20+1. Every long input and a quarter of the tiny ones are swept again on copies of the structure - a deserialized one and clone_from() into values that held something else (Default, a longer input with a larger maximum, a shorter one with a smaller maximum); counter derived_states_swept; when the input is empty the Default::default() value is swept against the empty reference too; position / occurrence alphabets include the wrap-around arguments 2^63, 2^63+n-1, 2^62+n-1, 2^56+n-1, 2^55+n-1."),
     "vacuity": need(["tie_scripts_explored", "cases_with_3+_levels", "cases_with_one_distinct_symbol", "empty_cases"]),
 }
 
@@ -165,7 +165,7 @@ PROPS["C05"] = {
         "non-empty; distinct by content hash.",
         TRUST,
         "quick: TINYQ(10), lengths <= 24577 (all positions up to 2049, boundary positions above); thorough: TINYQ(11), lengths up "
-        "to 2^20+1, all positions up to 8193, both build profiles. Every long input and a quarter of the tiny ones are swept again on copies of the structure - a deserialized one and clone_from() into values that held something else (Default, a longer input with a larger maximum, a shorter one with a smaller maximum); counter derived_states_swept; position / occurrence alphabets include the wrap-around arguments 2^63, 2^63+n-1, 2^62+n-1, 2^56+n-1, 2^55+n-1. Coarse-tiny family: every sequence of up to 6 (thorough 8) blocks of 256 / 512 symbols over the four constant fills, with and without a partial block, and of 7..11 (thorough ..17) blocks over two fills; one-hot and prefix fillings of 17 blocks of 512. Construction paths: new, From<QVector>, collect, and a quad vector assembled by pushes / extend / pushes / extend."),
+        "to 2^20+1, all positions up to 8193, both build profiles. Every long input and a quarter of the tiny ones are swept again on copies of the structure - a deserialized one and clone_from() into values that held something else (Default, a longer input with a larger maximum, a shorter one with a smaller maximum); counter derived_states_swept; when the input is empty the Default::default() value is swept against the empty reference too; position / occurrence alphabets include the wrap-around arguments 2^63, 2^63+n-1, 2^62+n-1, 2^56+n-1, 2^55+n-1. Coarse-tiny family: every sequence of up to 6 (thorough 8) blocks of 256 / 512 symbols over the four constant fills, with and without a partial block, and of 7..11 (thorough ..17) blocks over two fills; one-hot and prefix fillings of 17 blocks of 512. Construction paths: new, From<QVector>, collect, and a quad vector assembled by pushes / extend / pushes / extend."),
     "vacuity": need(["cases_crossing_two_select_samples", "cases_with_2+_superblocks_512", "cases_with_absent_symbol", "empty_cases"]),
 }
 
@@ -179,7 +179,7 @@ PROPS["C06"] = {
         "single one/zero) x RSNarrow/RSWide x {new, From}; every get, rank1, rank0, select1, select0, n_ones, n_zeros (bv_len) is "
         "compared with a Vec<bool> reference. Non-trivial = non-empty; distinct by content hash.",
         TRUST,
-        "quick: TINYBIT(18), lengths <= 65537; thorough: TINYBIT(22), lengths up to 2^21+1, both build profiles. The bit vector under the structure is obtained by every route the API offers (bools, sorted positions, repeated unsorted positions, a BitVectorMut history). Every long input and a quarter of the tiny ones are swept again on copies of the structure - a deserialized one and clone_from() into values that held something else (Default, a longer input with a larger maximum, a shorter one with a smaller maximum); counter derived_states_swept; position / occurrence alphabets include the wrap-around arguments 2^63, 2^63+n-1, 2^62+n-1, 2^56+n-1, 2^55+n-1. PrefixRun family: the m*S-th one / zero (S = 1024, 8192; m = 1, 2) at distance 0,1,2,62..65 from the end for lengths m*S + {64,65,127,128,512,576}. Coarse family: every sequence of up to 8 (thorough 9) 64-bit words and of up to 6 (8) 512-bit lines over the fills {zeros, ones, first bit only, last bit only}, with 0 / 1 trailing bits."),
+        "quick: TINYBIT(18), lengths <= 65537; thorough: TINYBIT(22), lengths up to 2^21+1, both build profiles. The bit vector under the structure is obtained by every route the API offers (bools, sorted positions, repeated unsorted positions, a BitVectorMut history). Every long input and a quarter of the tiny ones are swept again on copies of the structure - a deserialized one and clone_from() into values that held something else (Default, a longer input with a larger maximum, a shorter one with a smaller maximum); counter derived_states_swept; when the input is empty the Default::default() value is swept against the empty reference too; position / occurrence alphabets include the wrap-around arguments 2^63, 2^63+n-1, 2^62+n-1, 2^56+n-1, 2^55+n-1. PrefixRun family: the m*S-th one / zero (S = 1024, 8192; m = 1, 2) at distance 0,1,2,62..65 from the end for lengths m*S + {64,65,127,128,512,576}. Coarse family: every sequence of up to 8 (thorough 9) 64-bit words and of up to 6 (8) 512-bit lines over the fills {zeros, ones, first bit only, last bit only}, with 0 / 1 trailing bits."),
     "vacuity": need(["cases_over_8192_ones", "cases_over_8192_zeros", "cases_over_32768_bits", "all_zero_cases", "all_one_cases", "empty_cases"]),
 }
 
@@ -194,7 +194,7 @@ PROPS["C07"] = {
         "from a BitVector, from bools and from positions; every select1/select0 (all k in 0..=count+1, usize::MAX), len, counts, "
         "get, iter/ones/zeros and *_with_pos from group boundaries is compared with a Vec<bool> reference.",
         TRUST,
-        "quick: g <= 4 over {dense, threshold, sparse} (+ g <= 2 over 5 kinds), TINYBIT(15); thorough: g <= 6 (+ g <= 3), TINYBIT(18), both profiles. Every long input and a quarter of the tiny ones are swept again on copies of the structure - a deserialized one and clone_from() into values that held something else (Default, a longer input with a larger maximum, a shorter one with a smaller maximum); counter derived_states_swept; position / occurrence alphabets include the wrap-around arguments 2^63, 2^63+n-1, 2^62+n-1, 2^56+n-1, 2^55+n-1. The short-shape family has 7 kinds: the 5 evenly spread ones plus span-65535 groups packed at the start (last element alone at offset 65535) and packed at the end (last 32 elements in the final 33 bits, one hole). Boundary-gap lists: all position lists of up to 4 ones whose consecutive gaps are drawn from {1, 65534, 65535, 65536, 70000}, from 3 start offsets."),
+        "quick: g <= 4 over {dense, threshold, sparse} (+ g <= 2 over 5 kinds), TINYBIT(15); thorough: g <= 6 (+ g <= 3), TINYBIT(18), both profiles. Every long input and a quarter of the tiny ones are swept again on copies of the structure - a deserialized one and clone_from() into values that held something else (Default, a longer input with a larger maximum, a shorter one with a smaller maximum); counter derived_states_swept; when the input is empty the Default::default() value is swept against the empty reference too; position / occurrence alphabets include the wrap-around arguments 2^63, 2^63+n-1, 2^62+n-1, 2^56+n-1, 2^55+n-1. The short-shape family has 7 kinds: the 5 evenly spread ones plus span-65535 groups packed at the start (last element alone at offset 65535) and packed at the end (last 32 elements in the final 33 bits, one hole). Boundary-gap lists: all position lists of up to 4 ones whose consecutive gaps are drawn from {1, 65534, 65535, 65536, 70000}, from 3 start offsets."),
     "vacuity": need(["cases_with_sparse_then_dense_group_of_ones", "cases_with_sparse_then_dense_group_of_zeros",
                      "cases_with_threshold_group_of_ones", "cases_with_dense_then_sparse_group_of_ones", "empty_cases"]),
 }
@@ -249,7 +249,7 @@ PROPS["C13"] = {
         "i <= n+1, the three iterators, equality with from_iter of the same values, inequality with a one-symbol neighbour). "
         "Plus the E1 family: collect of every integer type over all of TINYQ(L) with values offset by multiples of 4 and negated.",
         TRUST + ["stateright 0.31"],
-        "quick: depth 5 from empty, 4 from the other starts, TINYQ(6); thorough: depth 6 / 5, TINYQ(7), both profiles. Iteration: next() histories and the iterator operations of C12 (mc/src/iterops.rs: count, last, fold, max, eq, find, position, all, nth, skip, step_by after every prefix) on QVector / RSQVector iterators over TINYQ(4) (thorough 5) and periodic + aperiodic inputs of 127..1025 symbols; get at the wrap-around arguments 2^63, 2^63+n-1, 2^62+n-1, 2^56+n-1, 2^55+n-1. Copy actions of the builder model (one per history, own lineage): clone_from into an empty builder / one holding 3 / 700 symbols."),
+        "quick: depth 5 from empty, 4 from the other starts, TINYQ(6); thorough: depth 6 / 5, TINYQ(7), both profiles. Iteration: next() histories and the iterator operations of C12 (mc/src/iterops.rs: count, last, fold, max, eq, find, position, all, nth, skip, step_by after every prefix) on QVector / RSQVector iterators over TINYQ(4) (thorough 5) and periodic + aperiodic inputs of 127..1025 symbols; get at the wrap-around arguments 2^63, 2^63+n-1, 2^62+n-1, 2^56+n-1, 2^55+n-1. Copy actions of the builder model (one per history, own lineage): clone_from into an empty builder / one holding 3 / 700 symbols. Start states are made by pushes, by with_capacity + pushes, by collect (FromIterator for QVectorBuilder) and by one extend."),
     "vacuity": lambda results: None if _merge_counters(results)[0].get("states", 0) > 1000 else "fewer than 1000 states",
 }
 
@@ -298,7 +298,7 @@ PROPS["C09"] = {
         "plus a digest of every answer of the complete query sweep per case, compared between the builds with and without the "
         "crate feature `prefetch`. Non-trivial = non-empty sequence.",
         TRUST + ["rank itself is checked against the reference by C01/C02"],
-        "quick: lengths <= 20481, builds chk+prefetch / chk without prefetch / fast+prefetch; thorough: lengths <= 65537 and all four builds. Plus all of TINY(3,4) (thorough 5) over u8/u64/u128 with full-width values; every comparison is repeated on the deserialized copy of the tree (all symbols, every 7th position on long inputs); symbols include 2^64+s for occurring s."),
+        "quick: lengths <= 20481, builds chk+prefetch / chk without prefetch / fast+prefetch; thorough: lengths <= 65537 and all four builds. Plus all of TINY(3,4) (thorough 5) over u8/u64/u128 with full-width values; every comparison is repeated on the deserialized copy of the tree (all symbols, every 7th position on long inputs); symbols include 2^64+s for occurring s. One- and two-level trees (value map id; alphabets of 2, 3, 4, 16 symbols among the long inputs)."),
     "vacuity": need(["cases_with_3+_levels", "cases_with_2+_prefetch_samples", "feature_digests_compared"]),
 }
 
@@ -313,7 +313,7 @@ PROPS["C10"] = {
         "(validity decided by the reference model), each unchecked method - get_unchecked, rank_unchecked, select_unchecked, "
         "rank1/rank0_unchecked, select1/select0_unchecked, occs_unchecked, occs_smaller_unchecked, rank_prefetch_unchecked, "
         "get_bits_unchecked - must return exactly what its checked twin returns (a debug assertion firing on valid input is a "
-        "panic and therefore a violation). A checked method that answers None on such arguments while the unchecked one returns a value is reported as a disagreement (class checked-none). Trees are also compared on copies (deserialized; clone_from into trees that held a smaller / a larger alphabet); the bit vectors under RSNarrow / RSWide come from bools, sorted positions and repeated unsorted positions (chosen by content); DArray inputs include the boundary-gap lists (gaps from {1, 65534, 65535, 65536, 70000}).",
+        "panic and therefore a violation). A checked method that answers None on such arguments while the unchecked one returns a value is reported as a disagreement (class checked-none). Trees are also compared on copies (deserialized; clone_from into trees that held a smaller / a larger alphabet); the bit vectors under RSNarrow / RSWide come from bools, sorted positions and repeated unsorted positions (chosen by content); DArray inputs include the boundary-gap lists (gaps from {1, 65534, 65535, 65536, 70000}). Likewise a checked method that panics there while the unchecked one answers (class checked-panic).",
         TRUST,
         "TINY(3,4) x 2 value maps x all types, Huffman profiles up to 5 symbols, boundary lengths up to 4097 (thorough 24577), "
         "TINYBIT(9), DArray group shapes up to 2 groups; profiles chk (debug assertions + overflow checks) and fast."),
@@ -327,7 +327,7 @@ PROPS["C11"] = {
     "evidence": exploration_evidence(
         "bounded-exhaustive: every value of the shared zoo (all serializable types, empty values included) is serialized with "
         "bincode and deserialized; deserialization must succeed, the result must compare equal to the original in both "
-        "directions, re-serialize to the identical bytes, and give the identical digest over the complete query sweep of its type. The round trip is made twice: of the value before it has answered any query, and of the same value after the complete sweep (equality and bytes again; the two copies must also equal each other).",
+        "directions, re-serialize to the identical bytes, and give the identical digest over the complete query sweep of its type. The round trip is made twice: of the value before it has answered any query, and of the same value after the complete sweep (equality and bytes again; the two copies must also equal each other). Every round trip also goes through bincode::deserialize_from (a cursor, and a reader that returns one byte per call), serialize_into and serialized_size; Default::default() values are round-tripped where the input is empty.",
         TRUST + ["bincode 1.3.3"],
         "same zoo as C10; thorough adds longer inputs and the fast profile. Bit patterns include density 1/63, 1/64, 1/65 (count_ones == len/64 with len % 64 != 0) and the boundary-gap lists."),
     "vacuity": need(["round_trips", "empty_cases"]),
@@ -345,7 +345,7 @@ PROPS["C19"] = {
         "one-length neighbour compares !=; ALL ordered pairs of the 121 sequences of TINY(3,4) compare != per tree type; the same "
         "numbers carried in u8/u16/u32/u64/usize/u128 give the identical width-independent digest of every get/rank/select.",
         TRUST,
-        "TINY(3,4..5), boundary lengths <= 4097, 121^2 pairs x 10 aliases x 3 element types, width comparison over TINY(3,5) + 3 long inputs. Copies: clone_from(x) into three donors (Default, longer / larger, shorter / smaller) must equal x and answer like it, for every type; bit-level neighbours also with two adjacent bits swapped in the first / middle / last word."),
+        "TINY(3,4..5), boundary lengths <= 4097, 121^2 pairs x 10 aliases x 3 element types, width comparison over TINY(3,5) + 3 long inputs. Copies: clone_from(x) into three donors (Default, longer / larger, shorter / smaller) must equal x and answer like it, for every type; bit-level neighbours also with two adjacent bits swapped in the first / middle / last word. Pairs also over the value map (0,1,4,16): sequences that are multiples of 4 of each other."),
     "vacuity": need(["pairs_compared", "empty_cases"]),
 }
 
@@ -491,7 +491,7 @@ PROPS["C15"] = {
         "tables) with tables = 10*(m+1) + 40*distinct + 4096 bytes, and heap - tables <= 1.01 * heap(plain tree over the same "
         "sequence) + 2048*levels. Non-trivial = n > 1000.",
         TRUST + ["the counting allocator", "minimum_redundancy for the code depth used in the additive term"],
-        "quick: n <= 2^18; thorough: n <= 2^21, both profiles. The level data itself is bounded exactly: the level sizes are read from the serde representation (field lens; counter level_data_measured) and 2*sum [HWT: sum] <= n*(H0+2) [H0+1] and <= the plain tree's n*bits*levels, with no additive allowance. Profiles with a frequent symbol of value 2^17+5 / 2^20+1; construction histories (two trees with permuted counts built one after the other on one thread) up to n = 261120."),
+        "quick: n <= 2^18; thorough: n <= 2^21, both profiles. The level data itself is bounded exactly: the level sizes are read from the serde representation (field lens; counter level_data_measured) and 2*sum [HWT: sum] <= n*(H0+2) [H0+1] and <= the plain tree's n*bits*levels, with no additive allowance. Profiles with a frequent symbol of value 2^17+5 / 2^20+1; construction histories (two trees with permuted counts built one after the other on one thread) up to n = 261120. Drifting distributions up to n = 2^19+77; very short sequences (n <= 220) over symbols that are large multiples of 2^16."),
     "vacuity": need(["cases_with_entropy_well_below_log_sigma", "cases_with_one_distinct_symbol"]),
 }
 
@@ -585,6 +585,6 @@ PROPS["C18"] = {
                  "intra-query preemption is covered by the independence argument: when the arena digest never changes no query "
                  "writes shared memory, so read-only steps commute"],
         "depth 2 over <= 90 queries (thorough: depth 3 over 40), 2x3 and 3x2 thread harnesses, preemption bound 1 with a point "
-        "cap (reported in vacuity_counters.caps_hit); sequential consistency only; state kept in statics is visible only through answers. The preemption explorer runs every (prefix, A, B) triple in three modes: on one shared instance (histories accumulate), on a never-queried clone and on a never-queried deserialized copy of a never-queried master (first-use effects); stress rounds after the first use fresh copies too. Subjects include 150k-600k element inputs with a rare symbol / very sparse bits (select ranges of more than 64 superblocks). A fourth mode uses clone_from into a Default value; the sequential histories also run on clones / deserialized / clone_from copies (origin). Subjects deeper than 32 levels (WT<u64>, WT<u128>, QWT256<u128>, QWT512Pfs<u64>). Impurity is detected by the arena digest and by an MMU probe (every query once with the arena read-only: transient writes count; counter queries_with_transient_writes). Interfering queries include one without an answer."),
+        "cap (reported in vacuity_counters.caps_hit); sequential consistency only; state kept in statics is visible only through answers. The preemption explorer runs every (prefix, A, B) triple in three modes: on one shared instance (histories accumulate), on a never-queried clone and on a never-queried deserialized copy of a never-queried master (first-use effects); stress rounds after the first use fresh copies too. Subjects include 150k-600k element inputs with a rare symbol / very sparse bits (select ranges of more than 64 superblocks). A fourth mode uses clone_from into a Default value; the sequential histories also run on clones / deserialized / clone_from copies (origin). Subjects deeper than 32 levels (WT<u64>, WT<u128>, QWT256<u128>, QWT512Pfs<u64>). Impurity is detected by the arena digest and by an MMU probe (every query once with the arena read-only: transient writes count; counter queries_with_transient_writes). Interfering queries include one without an answer. A preemption point at which the interfering query does not finish within 60 ms (it blocks on a lock the preempted query holds) is counted, is no verdict, and suspends forking for the next 150 points."),
     "vacuity": lambda results: None if _merge_counters(results)[0].get("schedules", 0) > 1000 and _merge_counters(results)[0].get("subjects_with_one_reachable_state", 0) > 10 else "too few schedules or subjects",
 }
